@@ -713,6 +713,9 @@ impl HnswBackend {
     /// This is a stop-the-world operation for writers (and blocks readers while rebuilding).
     fn compact_tombstones(&self) -> Result<usize> {
         let snapshot_guard = self.persistence.as_ref().map(|p| p.snapshot_lock.write());
+        // Writers keep the slot they looked up from pre-flight to apply under the write gate; without
+        // persistence there is no snapshot lock to keep them out while slots are renumbered.
+        let write_gate_guard = self.write_gate.lock();
 
         // Capture index construction params before we swap it.
         let (dimension, capacity, distance, m, ef_construction, disable_norm_check) = {
@@ -738,6 +741,7 @@ impl HnswBackend {
         if tombstones == 0 {
             drop(store);
             drop(index);
+            drop(write_gate_guard);
             drop(snapshot_guard);
             return Ok(0);
         }
@@ -805,6 +809,7 @@ impl HnswBackend {
         drop(store);
         drop(index);
         drop(meta_index);
+        drop(write_gate_guard);
         drop(snapshot_guard);
 
         Ok(tombstones)
